@@ -109,11 +109,11 @@ Theorem C04_parent_step : forall m p l ls, plabels m (pn_pos p) (pn_len p) (l ::
 Proof. exact parent_step. Qed.
 Print Assumptions C04_parent_step.
 
-Theorem C04_parsed_suffix_denotes : forall m pos lim p, parse_ref m pos lim = Ok p -> lim <= mlen m -> wf_bytes m -> parent_keeps_compressed_flag = true -> forall k, exists n q, parent_n k m p = Ok q /\ valid_abs n /\ denotes (NParsed m q) (n ++ [[]]).
+Theorem C04_parsed_suffix_denotes : forall m pos lim p, parse_ref m pos lim = Ok p -> lim <= mlen m -> wf_bytes m -> forall k, exists n q, parent_n k m p = Ok q /\ valid_abs n /\ denotes (NParsed m q) (n ++ [[]]).
 Proof. exact parsed_suffix_denotes. Qed.
 Print Assumptions C04_parsed_suffix_denotes.
 
-Theorem C04_parsed_suffix_ops : forall m pos lim p k rb b, parse_ref m pos lim = Ok p -> lim <= mlen m -> wf_bytes m -> parent_keeps_compressed_flag = true -> valid_abs b -> denotes rb (b ++ [[]]) -> exists n q, parent_n k m p = Ok q /\ valid_abs n /\ m_name_eq (NParsed m q) rb = Ok (name_eqb n b) /\ m_name_cmp (NParsed m q) rb = Ok (name_cmp n b) /\ m_composed_cmp (NParsed m q) rb = Ok (lex_cmp (wire_abs n) (wire_abs b)) /\ m_lc_composed_cmp (NParsed m q) rb = Ok (lex_cmp (wire_abs (canon n)) (wire_abs (canon b))) /\ m_name_hash (NParsed m q) = Ok (name_hash_feed n).
+Theorem C04_parsed_suffix_ops : forall m pos lim p k rb b, parse_ref m pos lim = Ok p -> lim <= mlen m -> wf_bytes m -> valid_abs b -> denotes rb (b ++ [[]]) -> exists n q, parent_n k m p = Ok q /\ valid_abs n /\ m_name_eq (NParsed m q) rb = Ok (name_eqb n b) /\ m_name_cmp (NParsed m q) rb = Ok (name_cmp n b) /\ m_composed_cmp (NParsed m q) rb = Ok (lex_cmp (wire_abs n) (wire_abs b)) /\ m_lc_composed_cmp (NParsed m q) rb = Ok (lex_cmp (wire_abs (canon n)) (wire_abs (canon b))) /\ m_name_hash (NParsed m q) = Ok (name_hash_feed n).
 Proof. exact parsed_suffix_ops. Qed.
 Print Assumptions C04_parsed_suffix_ops.
 
@@ -344,6 +344,22 @@ Print Assumptions C04_record_canonical_eq_subst.
 Theorem C04_record_canonical_eq_iff : forall a b, m_record_canonical_cmp a b = Eq <-> r_class a = r_class b /\ name_eqb (r_owner a) (r_owner b) = true /\ r_rtype a = r_rtype b /\ r_rdata a = r_rdata b.
 Proof. exact record_canonical_eq_iff. Qed.
 Print Assumptions C04_record_canonical_eq_iff.
+
+Theorem C04_u32_partial_agrees : forall a b, u32_partial_gen false a b = Some (a ?= b).
+Proof. exact u32_partial_agrees. Qed.
+Print Assumptions C04_u32_partial_agrees.
+
+Theorem C04_u32_partial_serial_refuted : u32_partial_gen true 0 2147483648 = None /\ u32_partial_gen true 0 2147483649 = Some Gt /\ (0 ?= 2147483649) = Lt.
+Proof. exact u32_partial_serial_refuted. Qed.
+Print Assumptions C04_u32_partial_serial_refuted.
+
+Theorem C04_pfx_partial_agrees : forall a b, pfx_partial_gen true a b = Some (m_charstr_canonical_cmp a b).
+Proof. exact pfx_partial_agrees. Qed.
+Print Assumptions C04_pfx_partial_agrees.
+
+Theorem C04_pfx_partial_plain_refuted : pfx_partial_gen false [2] [1;1] = Some Gt /\ m_charstr_canonical_cmp [2] [1;1] = Lt.
+Proof. exact pfx_partial_plain_refuted. Qed.
+Print Assumptions C04_pfx_partial_plain_refuted.
 
 Theorem C04_header_cmp_trans : forall a b c o, m_header_cmp a b = o -> m_header_cmp b c = o -> m_header_cmp a c = o.
 Proof. exact header_cmp_trans. Qed.
